@@ -245,7 +245,19 @@ def short_ids(ctx, P):
         if len(bnd) == 1:
             bound_get = int(bnd[0].group(1))
             fb, mp, un = F.bind_atoms(hits[0].formula, {"NONZERO": key, "INRANGE": "%s < %d" % (key, bound_get)})
-            ok = F.implies(fb, F.parse("NONZERO && INRANGE")) and re.fullmatch(r"\w+\[0\]", key) is not None
+            first = key
+            if idx[0] == "local" and idx[1] not in gsub:
+                # `b = contents[0]; contents = contents.subspan(1);`: b keeps its own name (contents is overwritten later);
+                # it is the first byte if it is initialised from element 0 before the buffer is first overwritten
+                dinit = local_defs(gt, P, allow_overwritten=True).get(idx[1])
+                dl = [st.get("l") for st in stmts(gt.body) if st.get("k") == "decl" and st.get("n") == idx[1]]
+                if is_expr(dinit) and len(dl) == 1 and peel(dinit)[0] == "idx" and peel(dinit)[1][0] in ("param", "local"):
+                    buf = peel(dinit)[1]
+                    kl = [st.get("l") for st, e in all_exprs(gt.body) for x in subexprs(e)
+                          if (x[0] == "b" and x[1] in ASSIGN_OPS and x[2] == buf) or (x[0] == "opcall" and x[1] in ASSIGN_OPS and len(x) > 3 and x[3] == buf)]
+                    if all(l_ > dl[0] for l_ in kl):
+                        first = F.key(dinit)
+            ok = F.implies(fb, F.parse("NONZERO && INRANGE")) and re.fullmatch(r"\w+\[0\]", first) is not None
     ctx.ob("short-ids/receive-lookup", "SYMMETRY", "GetMessageType decodes a non-zero first byte b as V2_MESSAGE_IDS[b], only for b below the table size", ok, gt.where,
            {"bound": bound_get})
     ctx.ob("short-ids/same-bound", "SYMMETRY", "sender map and receiver lookup use the same table bound (std::size(V2_MESSAGE_IDS))", bound_map is not None and bound_map == bound_get, None,
@@ -277,5 +289,5 @@ def short_ids(ctx, P):
     ctx.ob("short-ids/long-encoding", "SYMMETRY", "without a short id the contents are 0x00, the message type at offset 1 (12 bytes, zero padded) and the payload at offset 13 - "
            "the layout GetMessageType parses", okl, sm.where, {"type_copy": [show(s.expr)[:100] for s in tcp], "data_copy": [show(s.expr)[:100] for s in dcp]})
     lg = [e for e in exits(gt, P, gsub) if e.kind == "ret" and is_expr(e.value) and e.line not in {h.line for h in hits} and contains(["local", ANY], e.value)]
-    okg = len(lg) == 1 and any(re.fullmatch(r"\w+\.size\(\) < %d" % mts, k) for k in F.atoms(lg[0].formula))
+    okg = len(lg) == 1 and any(re.fullmatch(r"\w+\.size\(\) < %d" % mts, F.strip_stale(k)) for k in F.atoms(lg[0].formula))
     ctx.ob("short-ids/long-decoding", "SYMMETRY", "the long encoding is accepted only with at least MESSAGE_TYPE_SIZE (12) type bytes present", okg, gt.where)
